@@ -299,8 +299,7 @@ class Interp:
         root = self._root_func()
         if root is None:
             return False
-        from .known_functions import KNOWN_FUNCTIONS
-        if target.qualname not in KNOWN_FUNCTIONS and \
+        if not self._known(target) and \
                 not target.is_property and \
                 not target.name.startswith("__") and \
                 target.module.name not in ("evo.core.transformations",):
@@ -318,10 +317,34 @@ class Interp:
             return False
         if target.module.name in ("evo.core.transformations",):
             return False
-        from .known_functions import KNOWN_FUNCTIONS
-        if target.qualname not in KNOWN_FUNCTIONS:
+        if not self._known(target):
             return True      # added after the pinned tree: never an anchor
         return target.name not in mentioned_names()
+
+    def _known(self, fn: Function) -> bool:
+        """part of the pinned tree — under its own qualified name, or as a
+        method of that name of a class below it (a method moved up into an
+        extracted base class / mixin keeps its role)"""
+        from .known_functions import KNOWN_FUNCTIONS
+        if fn.qualname in KNOWN_FUNCTIONS:
+            return True
+        if fn.cls is None:
+            return False
+        cache = getattr(self.prog, "_known_moved", None)
+        if cache is None:
+            cache = self.prog._known_moved = {}
+        if fn.qualname not in cache:
+            hit = False
+            for c in self.prog.classes.values():
+                if c is fn.cls:
+                    continue
+                if f"{c.qualname}.{fn.name}" in KNOWN_FUNCTIONS and \
+                        fn.name not in c.methods and any(
+                            k is fn.cls for k in self.prog.mro(c)):
+                    hit = True
+                    break
+            cache[fn.qualname] = hit
+        return cache[fn.qualname]
 
     # ================================================================ entry
     def run(self, fn: Function, args: Optional[Dict[str, T]] = None,
@@ -1586,6 +1609,18 @@ class Interp:
                 mth = self.prog.find_method(c, name)
                 if mth is not None and mth.is_property and \
                         frame.depth < self.max_depth and \
+                        mth.qualname not in self.stack:
+                    return self.inline_call(mth, {mth.params[0]: base}, frame,
+                                            live, node, c)
+        else:
+            # a property that is not part of the pinned tree is looked
+            # through like any function added later
+            c = self.class_of(base, frame)
+            if c is not None:
+                mth = self.prog.find_method(c, name)
+                if mth is not None and mth.is_property and \
+                        not self._known(mth) and \
+                        frame.depth < self.max_depth + 2 and \
                         mth.qualname not in self.stack:
                     return self.inline_call(mth, {mth.params[0]: base}, frame,
                                             live, node, c)
